@@ -80,7 +80,7 @@ func init() {
 	reg(&PropSpec{ID: "C13", Title: "Numeric conversions never lose information silently", DesignRef: "DESIGN.md §4 C13",
 		Groups: []Group{
 			// every function of conversions.go and math.go (narrowing helpers, exact arithmetic)
-			{Funcs: `^datacodec\.(u?int(8|16|32|64)?To[A-Za-z0-9]+|stringToInt(8|16|32|64)|bigIntTo[A-Za-z0-9]+|float64ToFloat32|addExact)$`, Classes: c13Classes, Narrow: true},
+			{Funcs: `^datacodec\.(u?int(8|16|32|64)?To[A-Za-z0-9]+|stringToInt(8|16|32|64)|bigIntTo[A-Za-z0-9]+|float64ToFloat32|bigFloatToFloat64|addExact)$`, Classes: c13Classes, Narrow: true},
 			// the CQL-type dispatchers: one clause family per accepted Go representation
 			{Funcs: `^datacodec\.convert(To|From)(Int(8|16|32|64)|Float(32|64)|Int32Date|Int64Time|Int64Timestamp|Boolean|BigInt)$`, Classes: c13Classes, Narrow: true},
 			{Funcs: `^datacodec\.(readDuration|ConvertTimeToEpochDays|ConvertDurationToNanosOfDay|ConvertNanosOfDayToDuration)$`, Classes: c13Classes, Narrow: true},
@@ -88,7 +88,7 @@ func init() {
 		Assume: []string{
 			"int and uint are 64 bits wide (strconv.IntSize == 64); the intSize == 32 branches are proved against the 32-bit ranges as well",
 			"floorDiv, floorMod and multiplyExact are NOT under proof: their statements need a 64x64-bit product or division, undecided by z3 4.8.12, z3 5.1.0 and cvc5 1.0.3 within 30 s (DESIGN.md §9); they are listed as undecided, not claimed",
-			"big.Float accuracy reporting (Float64() returning big.Exact) is trusted",
+			"(*big.Float).Float64 is used through an assumed contract (accuracy == big.Exact exactly when the value is representable); bigFloatToFloat64 is proved to succeed exactly in that case",
 		}})
 }
 
